@@ -61,6 +61,19 @@ class Unknown(object):
 _PENDING = object()
 _MODVALS = {}
 
+# side-effect free functions of the standard library the analysed code may
+# import: applied to the evaluated arguments as they are
+import itertools as _it      # noqa: E402
+import collections as _co    # noqa: E402
+PURE_STDLIB = {
+    ('itertools', n): getattr(_it, n) for n in (
+        'chain', 'islice', 'product', 'count', 'repeat', 'zip_longest',
+        'takewhile', 'dropwhile', 'starmap', 'accumulate', 'compress',
+        'filterfalse', 'permutations', 'combinations')}
+PURE_STDLIB[('itertools', 'chain.from_iterable')] = _it.chain.from_iterable
+PURE_STDLIB.update({('collections', n): getattr(_co, n) for n in (
+    'OrderedDict', 'deque', 'Counter')})
+
 
 class ClosureEnv(dict):
     """local names of a nested function over the defining environment"""
@@ -949,6 +962,21 @@ class Evaluator(object):
                 if isinstance(obj, Obj):
                     return obj.has(name)
                 return hasattr(obj, name)
+            if n == 'setattr' and n not in env and \
+                    n not in self.functions and len(e.args) == 3 and \
+                    not e.keywords:
+                obj = self.expr(e.args[0], env)
+                name = self.expr(e.args[1], env)
+                val = self.expr(e.args[2], env)
+                if not (isinstance(obj, Obj) and isinstance(name, str)):
+                    self.err(e, 'setattr on %r' % (obj,))
+                hook = self.class_methods.get(obj.__dict__['_cls'], {}).get(
+                    '__setattr__')
+                if hook is not None and not self._in_hook(hook, obj):
+                    self.call(hook, [name, val], self_obj=obj)
+                else:
+                    setattr(obj, name, val)
+                return None
             if n == 'getattr' and n not in env and \
                     n not in self.functions and len(e.args) in (2, 3) \
                     and not e.keywords:
@@ -1055,6 +1083,11 @@ class Evaluator(object):
                     self.context_of.setdefault(id(fd), (other, None))
                     ret, ys = self.call(fd, args, kwargs)
                     return ys if is_generator(fd) else ret
+            pure = PURE_STDLIB.get((f.module, short))
+            if pure is not None:
+                args = [self.iterate(a, e) if isinstance(a, Obj) else
+                        self.as_callable(a) for a in args]
+                return pure(*args, **kwargs)
             # construction of a namedtuple-like record
             return ('record', f.name, tuple(args), kwargs)
         self.err(e, 'unsupported call')
